@@ -767,7 +767,7 @@ class Permutation(base.Recombinator):
     super()._on_bound()
     self._random = random if self.seed is None else random.Random(self.seed)
     if self.where.sym_hasattr('seed'):
-      self.where.rebind(seed=self.seed, skip_notification=True)
+      self.where.rebind(seed=self.seed, notify_parents=False)
 
   def recombine(
       self,
